@@ -14,10 +14,10 @@ import serde2coq  # noqa
 
 ID = 'C11'
 HARNESS = 'c11'
-COQ_IMPORTS = ('From VRP Require Import Base.Tac Base.Json Model.SerdeSem Generated.ProblemCodec Generated.SolutionCodec.\n'
+COQ_IMPORTS = ('From VRP Require Import Base.Tac Base.Json Model.SerdeSem Generated.ProblemCodec Generated.SolutionCodec Model.Csv Model.InitReader.\n'
                'Open Scope string_scope.')
-MODEL_TARGETS = ['theories/Generated/SolutionCodec.vo']
-SIZES = {'quick': 700, 'thorough': 6000, 'search': 3000}
+MODEL_TARGETS = ['theories/Generated/SolutionCodec.vo', 'theories/Model/Csv.vo', 'theories/Model/InitReader.vo']
+SIZES = {'quick': 700, 'thorough': 6000, 'search': 1200}
 SHARD = 60
 RULE = ('documents are generated from the schema extracted from the Rust model files: canonical documents (exactly what the '
         'serialiser emits: every optional field present/absent, every enum variant round-robin, empty and non-empty '
@@ -250,6 +250,8 @@ class Gen:
         self.mode = mode          # 'canon' | 'loose' | 'bad'
         self.rr = rr if rr is not None else {}
         self.mutations = 1 if mode == 'bad' else 0
+        self.mut_at = rng.below(rng.choice([4, 12, 40, 120])) if mode == 'bad' else -1   # which opportunity gets the malformation
+        self.opportunities = 0
         self.mutated = None
         self.irs = schema()
         self.full = None           # None | 'all' | 'none'  (corpus documents)
@@ -258,9 +260,11 @@ class Gen:
         return self.mode != 'canon' and self.rng.chance(num, den)
 
     def want_mutation(self):
-        if self.mutations > 0 and self.rng.chance(1, 6):
-            self.mutations -= 1
-            return True
+        if self.mutations > 0:
+            self.opportunities += 1
+            if self.opportunities > self.mut_at:
+                self.mutations -= 1
+                return True
         return False
 
     # ---- scalars
@@ -480,6 +484,472 @@ def gen_doc(rng, kind, mode, rr, full=None):
     return None
 
 
+
+# ------------------------------------------------------------------ (c) CSV import
+T0 = ['2020-07-04T08:00:00Z', '2020-07-04T09:30:00Z', '2020-07-04T12:00:00+02:00']
+T1 = ['2020-07-04T18:00:00Z', '2020-07-04T20:00:00Z', '2020-07-05T00:00:00Z']
+JOB_IDS = ['job1', 'job2', 'job3', 'j-4', 'J5', 'order_6', '7', 'job1x']
+PROFILES = ['car', 'truck', 'bike', 'car_1', 'normal-car']
+
+
+def dec_str(rng, lo, hi, digits):
+    """a short decimal; returns (text, exact dyadic of the f64 the std parser yields)"""
+    k = rng.range(lo * 10 ** digits, hi * 10 ** digits)
+    d = rng.below(digits + 1)
+    k = k // 10 ** (digits - d)
+    text = '%s%d' % ('-' if k < 0 else '', abs(k) // 10 ** d)
+    if d:
+        text += '.' + ('%0*d' % (d, abs(k) % 10 ** d))
+    m, den = float(text).as_integer_ratio()
+    return text, [m, den.bit_length() - 1]
+
+
+def gen_csv(rng):
+    wf = {'balanced': True, 'tw_pairs': True, 'tw_order': True, 'type_ids_distinct': True, 'profiles_distinct': True,
+          'has_vehicle': True, 'demand_not_min': True}
+    jrows = []
+    sloppy = rng.chance(1, 6)            # tables outside the documented form (half windows, reversed windows, unbalanced demand)
+    nj = rng.choice([0, 1, 2, 3, 3, 4, 5, 6])
+    ids = rng.shuffle(JOB_IDS)[:nj]
+    for jid in ids:
+        shape = rng.below(10)
+        if shape < 4:
+            ds = [rng.choice([1, 2, 3, 10, 2147483647])]
+        elif shape < 6:
+            ds = [-rng.range(1, 5)]
+        elif shape < 7:
+            ds = [0]
+        elif shape < 9:
+            a, b = rng.range(1, 4), rng.range(1, 4)          # pickups and deliveries with equal sums
+            ds = [a, b, -(a + b)] if rng.chance(1, 2) else [a + b, -a, -b]
+            if rng.chance(1, 3):
+                ds.append(0)
+            ds = rng.shuffle(ds)
+        elif sloppy:
+            ds = [rng.range(1, 3), -rng.range(4, 6)]
+            wf['balanced'] = False
+        else:
+            ds = [rng.range(1, 9)]
+        if rng.chance(1, 150):
+            ds[0] = -2 ** 31
+            wf['demand_not_min'] = False
+            wf['balanced'] = wf['balanced'] and len(ds) == 1
+        for d in ds:
+            lat = dec_str(rng, -90, 90, 5)
+            lng = dec_str(rng, -180, 180, 5)
+            r = rng.below(12) if sloppy else rng.below(10)
+            if r < 6:
+                tw = [rng.choice(T0), rng.choice(T1)]
+            elif r < 10:
+                tw = [None, None]
+            elif r < 11:
+                tw = [rng.choice(T0), None] if rng.chance(1, 2) else [None, rng.choice(T1)]
+                wf['tw_pairs'] = False
+            else:
+                tw = [rng.choice(T1), rng.choice(T0)]
+                wf['tw_order'] = False
+            dur = rng.choice([0, 1, 5, 300, rng.range(0, 100000), 2 ** 53])
+            jrows.append([jid, lat, lng, d, dur, tw[0], tw[1]])
+    if rng.chance(1, 2):
+        jrows = rng.shuffle(jrows)          # rows of one job need not be adjacent
+    vrows = []
+    nv = rng.choice([1, 1, 2, 2, 3, 4]) if not rng.chance(1, 40) else 0
+    wf['has_vehicle'] = nv > 0
+    profs = rng.shuffle(PROFILES)
+    for k in range(nv):
+        vid = 'vehicle%d' % (k + 1)
+        if k > 0 and rng.chance(1, 25):
+            vid = 'vehicle1'
+            wf['type_ids_distinct'] = False
+        prof = profs[k]
+        if k > 0 and rng.chance(1, 4):
+            prof = vrows[rng.below(k)][7]
+        amount = rng.choice([1, 1, 2, 3, 10, 0])
+        vrows.append([vid, dec_str(rng, -90, 90, 4), dec_str(rng, -180, 180, 4), rng.choice([0, 1, 10, 40, 2147483647, -3]),
+                      rng.choice(T0), rng.choice(T1), amount, prof])
+    shared = set()
+    for a in range(nv):
+        for b in range(a + 1, nv):
+            if vrows[a][7] == vrows[b][7]:
+                shared.add(vrows[a][7])
+                if vrows[a][6] >= 1 and vrows[b][6] >= 1:
+                    wf['profiles_distinct'] = False
+    jt = 'ID,LAT,LNG,DEMAND,DURATION,TW_START,TW_END\n' + ''.join(
+        '%s,%s,%s,%d,%d,%s,%s\n' % (r[0], r[1][0], r[2][0], r[3], r[4], r[5] or '', r[6] or '') for r in jrows)
+    vt = 'ID,LAT,LNG,CAPACITY,TW_START,TW_END,AMOUNT,PROFILE\n' + ''.join(
+        '%s,%s,%s,%d,%s,%s,%d,%s\n' % (r[0], r[1][0], r[2][0], r[3], r[4], r[5], r[6], r[7]) for r in vrows)
+    return {'op': 'csv', 'jobs': jt, 'vehicles': vt, 'jrows': jrows, 'vrows': vrows, 'wf': wf}
+
+
+def csv_term(c):
+    def ostr(x):
+        return 'None' if x is None else '(Some %s)' % cstr(x)
+    js = ['(%s, (%d, %d%%nat), (%d, %d%%nat), %d, %d, %s, %s)' % (cstr(r[0]), r[1][1][0], r[1][1][1], r[2][1][0], r[2][1][1], r[3], r[4], ostr(r[5]), ostr(r[6]))
+          for r in c['jrows']]
+    vs = ['(%s, (%d, %d%%nat), (%d, %d%%nat), %d, %s, %s, %d, %s)' % (cstr(r[0]), r[1][1][0], r[1][1][1], r[2][1][0], r[2][1][1], r[3], cstr(r[4]), cstr(r[5]), r[6], cstr(r[7]))
+          for r in c['vrows']]
+    return 'run_csv [%s] [%s]' % ('; '.join(js), '; '.join(vs))
+
+
+def csv_canon(v):
+    """jobs and matrix profiles come out in hash order: compare them as sets"""
+    v = json.loads(json.dumps(v)) if not isinstance(v, dict) else dict(v)
+    plan = dict(v.get('plan', {}))
+    plan['jobs'] = sorted(plan.get('jobs', []), key=lambda j: j['id'])
+    fleet = dict(v.get('fleet', {}))
+    fleet['profiles'] = sorted(fleet.get('profiles', []), key=lambda j: j['name'])
+    v['plan'] = plan
+    v['fleet'] = fleet
+    return v
+
+
+def csv_compare(c, impl, model):
+    if 'panic' in impl:
+        return None if model == 'CsvPanic' else 'implementation panicked (%s), model: %s' % (impl['panic'], str(model)[:80])
+    if model == 'CsvPanic':
+        return 'model panics (abs overflow), implementation does not'
+    if model == 'CsvBadInput':
+        return 'generator produced a row outside the Rust field types'
+    if not impl['ok']:
+        return 'implementation rejects the tables: %s' % impl.get('err')
+    m = csv_canon(canon_of_model(model[1]))
+    i = csv_canon(canon_of_py(impl['problem']))
+    d = first_diff(i, m)
+    return None if d is None else 'imported problem differs from the model at %s' % d
+
+
+def csv_data_violation(c, p):
+    """every row's data reappears exactly (checked on the implementation's problem, independent of the model)"""
+    jobs = {}
+    for j in p['plan']['jobs']:
+        if j['id'] in jobs:
+            return 'duplicate-job-id', 'job id %s appears twice' % j['id']
+        jobs[j['id']] = j
+    want = {}
+    for r in c['jrows']:
+        bucket = 'pickups' if r[3] > 0 else ('deliveries' if r[3] < 0 else 'services')
+        tw = [[r[5], r[6]]] if (r[5] is not None and r[6] is not None) else None
+        task = {'places': [{'location': {'lat': Fl(float(r[1][0])), 'lng': Fl(float(r[2][0]))}, 'duration': Fl(r[4])}]}
+        if tw:
+            task['places'][0]['times'] = tw
+        if r[3] != 0:
+            task['demand'] = [Fraction(abs(r[3]))]
+        want.setdefault(r[0], {}).setdefault(bucket, []).append(task)
+    if set(want) != set(jobs):
+        return 'job-set', 'job ids %s, rows have %s' % (sorted(jobs), sorted(want))
+    for jid, buckets in want.items():
+        got = canon_of_py(jobs[jid])
+        exp = dict(buckets)
+        exp['id'] = jid
+        d = first_diff(got, exp)
+        if d:
+            return 'job-data' + d.replace('[]', ''), 'job %s does not carry its rows\' data at %s' % (jid, d)
+    vs = p['fleet']['vehicles']
+    if len(vs) != len(c['vrows']):
+        return 'vehicle-count', '%d vehicle types for %d rows' % (len(vs), len(c['vrows']))
+    for v, r in zip(vs, c['vrows']):
+        depot = {'lat': Fl(float(r[1][0])), 'lng': Fl(float(r[2][0]))}
+        got = canon_of_py(v)
+        exp = {'typeId': r[0], 'profile': {'matrix': r[7]}, 'capacity': [Fraction(r[3])],
+               'shifts': [{'start': {'earliest': r[4], 'location': depot}, 'end': {'latest': r[5], 'location': depot}}]}
+        for k in exp:
+            d = first_diff(got.get(k), exp[k])
+            if d:
+                return 'vehicle-data.' + k, 'vehicle type %s does not carry its row at %s%s' % (r[0], k, d)
+        if len(v['vehicleIds']) != r[6]:
+            return 'vehicle-amount', 'vehicle type %s has %d ids for AMOUNT %d' % (r[0], len(v['vehicleIds']), r[6])
+    if sorted(x['name'] for x in p['fleet']['profiles']) != sorted({r[7] for r in c['vrows']}):
+        return 'profiles', 'matrix profiles are not the set of PROFILE values'
+    return None
+
+
+def csv_oracle(c, impl):
+    wf = c['wf']
+    if 'panic' in impl:
+        if not wf['demand_not_min']:
+            return [{'class': 'csv-demand-i32-min-abs-overflow', 'what': 'DEMAND = -2147483648 makes the import panic: ' + impl['panic']}]
+        return [{'class': 'panic:csv', 'what': 'import panicked: ' + impl['panic']}]
+    if not impl['ok']:
+        return [{'class': 'csv-tables-rejected', 'what': 'documented tables are rejected: %s' % impl.get('err')}]
+    v = []
+    if wf['tw_pairs']:
+        dv = csv_data_violation(c, impl['problem'])
+        if dv:
+            v.append({'class': 'csv-data-lost:' + dv[0], 'what': dv[1]})
+    codes = impl['validation']
+    table_ok = wf['balanced'] and wf['tw_order'] and wf['type_ids_distinct'] and wf['has_vehicle']
+    if codes and table_ok:
+        if codes == ['E1301'] and not wf['profiles_distinct']:
+            v.append({'class': 'csv-vehicle-ids-from-profile:rows-sharing-a-profile-get-equal-vehicle-ids',
+                      'what': 'two vehicle rows with the same PROFILE import as duplicate vehicle ids (E1301)'})
+        else:
+            v.append({'class': 'csv-import-invalid:' + '+'.join(codes), 'what': 'well-formed tables import as a problem rejected with %s' % codes})
+    return v
+
+
+# ------------------------------------------------------------------ (b) solver output read back as initial solution
+import datetime
+EPOCH0 = 1593849600          # 2020-07-04T08:00:00Z
+
+
+def rfc(t):
+    return datetime.datetime.fromtimestamp(t, datetime.timezone.utc).strftime('%Y-%m-%dT%H:%M:%SZ')
+
+
+def unrfc(s):
+    return int(datetime.datetime.strptime(s, '%Y-%m-%dT%H:%M:%SZ').replace(tzinfo=datetime.timezone.utc).timestamp())
+
+
+def init_problem(rng, shape=None):
+    """small pragmatic problem on matrix indices with integer travel times; returns (problem, matrix) as python values"""
+    nloc = rng.range(4, 7)
+    pos = [(rng.range(0, 30), rng.range(0, 30)) for _ in range(nloc)]
+    horizon = rng.choice([2000, 4000, 10000])
+
+    def win(a, b):
+        return [rfc(EPOCH0 + a), rfc(EPOCH0 + b)]
+
+    def place(loc=None, tag=None, times='rand', dur=None):
+        p = {'location': {'index': rng.range(1, nloc - 1) if loc is None else loc},
+             'duration': rng.choice([0, 10, 60, 300]) if dur is None else dur}
+        if times == 'rand':
+            r = rng.below(5)
+            if r == 0:
+                p['times'] = [win(0, horizon)]
+            elif r == 1:
+                a = rng.range(0, horizon // 2)
+                p['times'] = [win(a, a + rng.range(100, 1500))]
+            elif r == 2:
+                a = rng.range(0, 600)
+                b = a + rng.range(50, 400)
+                c = b + rng.range(1, 200)
+                p['times'] = [win(a, b), win(c, c + rng.range(50, 600))]
+        elif times is not None:
+            p['times'] = times
+        if tag is not None:
+            p['tag'] = tag
+        return p
+
+    jobs = []
+    nj = rng.range(2, 6)
+    for k in range(nj):
+        jid = 'job%d' % (k + 1)
+        r = rng.below(12) if shape is None else shape
+        dem = [rng.choice([1, 1, 2, 3, 20])]
+        if r < 3:
+            jobs.append({'id': jid, 'deliveries': [{'places': [place(tag=rng.choice([None, 't' + jid]))], 'demand': dem}]})
+        elif r < 4:
+            jobs.append({'id': jid, 'pickups': [{'places': [place()], 'demand': dem}]})
+        elif r < 5:
+            jobs.append({'id': jid, 'services': [{'places': [place()]}]})
+        elif r < 7:          # pickup + delivery, tags tell the sub-jobs apart
+            jobs.append({'id': jid, 'pickups': [{'places': [place(tag='p' + jid)], 'demand': dem}],
+                         'deliveries': [{'places': [place(tag='d' + jid)], 'demand': dem}]})
+        elif r < 8:          # two deliveries in one job at the same location, same windows: only the tags differ
+            loc = rng.range(1, nloc - 1)
+            jobs.append({'id': jid, 'deliveries': [{'places': [place(loc=loc, tag='a' + jid, times=None, dur=10)], 'demand': [1]},
+                                                   {'places': [place(loc=loc, tag='b' + jid, times=None, dur=10)], 'demand': [1]}]})
+        elif r < 9:          # alternative places at different locations
+            l1 = rng.range(1, nloc - 1)
+            l2 = rng.choice([x for x in range(1, nloc) if x != l1])      # either order of the two location indices
+            tags = rng.choice([(None, None), ('x' + jid, 'y' + jid), ('x' + jid, None)])
+            jobs.append({'id': jid, 'deliveries': [{'places': [place(loc=l1, tag=tags[0]), place(loc=l2, tag=tags[1])], 'demand': dem}]})
+        elif r < 11:         # one place, two close windows, long service: the service may run into the second window
+            a = rng.range(0, 800)
+            b = a + rng.range(100, 600)
+            gap = rng.range(1, 120)
+            dur = rng.choice([60, 300, 600])
+            jobs.append({'id': jid, 'deliveries': [{'places': [place(times=[win(a, b), win(b + gap, b + gap + rng.range(100, 900))], dur=dur)],
+                                                    'demand': dem}]})
+        else:                # two places at the SAME location, intersecting windows, different service times, distinct tags
+            loc = rng.range(1, nloc - 1)
+            a = rng.range(0, 500)
+            jobs.append({'id': jid, 'deliveries': [{'places': [
+                place(loc=loc, tag='slow' + jid, times=[win(0, horizon)], dur=rng.choice([300, 600])),
+                place(loc=loc, tag='fast' + jid, times=[win(a, a + rng.range(200, 1500))], dur=rng.choice([0, 10, 60]))],
+                'demand': dem}]})
+    vehicles = []
+    nt = rng.choice([1, 1, 2])
+    for k in range(nt):
+        shift = {'start': {'earliest': rfc(EPOCH0), 'location': {'index': 0}}}
+        if rng.chance(3, 4):
+            shift['end'] = {'latest': rfc(EPOCH0 + horizon), 'location': {'index': 0}}
+        vehicles.append({'typeId': 'type%d' % (k + 1), 'vehicleIds': ['v%d_%d' % (k + 1, i + 1) for i in range(rng.choice([1, 2]))],
+                         'profile': {'matrix': 'car'}, 'costs': {'fixed': 20.0, 'distance': 1.0, 'time': 1.0},
+                         'shifts': [shift], 'capacity': [rng.choice([3, 10])]})
+    problem = {'plan': {'jobs': jobs}, 'fleet': {'vehicles': vehicles, 'profiles': [{'name': 'car'}]}}
+    # every matrix index must be used (E1504 compares the number of distinct locations with the matrix size)
+    places = [p for j in jobs for k in ('pickups', 'deliveries', 'services') for t in j.get(k, []) for p in t['places']]
+    used = sorted({0} | {p['location']['index'] for p in places})
+    remap = {old: new for new, old in enumerate(used)}
+    for p in places:
+        p['location'] = {'index': remap[p['location']['index']]}
+    pos = [pos[i] for i in used]
+    tt = [abs(a[0] - b[0]) * 10 + abs(a[1] - b[1]) * 10 for a in pos for b in pos]
+    matrix = {'profile': 'car', 'travelTimes': tt, 'distances': [x * 7 for x in tt]}
+    return problem, matrix
+
+
+def gen_init(rng, shape=None):
+    problem, matrix = init_problem(rng, shape)
+    return {'op': 'init', 'problem': json.dumps(problem), 'matrix': json.dumps(matrix), 'generations': rng.choice([1, 2, 5])}
+
+
+CUSTOMER = ('pickup', 'delivery', 'replacement', 'service')
+
+
+def init_singles(job):
+    """the core singles the problem reader builds for a job (job_reader.rs: pickups, deliveries, replacements, services)"""
+    out = []
+    for key in ('pickups', 'deliveries', 'replacements', 'services'):
+        for task in job.get(key) or []:
+            places = []
+            tags = []
+            for i, p in enumerate(task['places']):
+                times = [(unrfc(w[0]), unrfc(w[1])) for w in p['times']] if p.get('times') is not None else [(0, None)]
+                places.append((p['location']['index'], int(p['duration']), times))
+                if p.get('tag') is not None:
+                    tags.append((i, p['tag']))
+            out.append((job['id'], places, tags))
+    return out
+
+
+def single_term(sg):
+    jid, places, tags = sg
+    ps = '; '.join('mk_place (Some %d) %d [%s]' % (loc, dur, '; '.join('SWindow %d %s' % (a, 'None' if b is None else '(Some %d)' % b) for a, b in times))
+                   for loc, dur, times in places)
+    ts = '; '.join('(%d%%nat, %s)' % (i, cstr(t)) for i, t in tags)
+    return 'mk_single %s [%s] [%s]' % (cstr(jid), ps, ts)
+
+
+def written_activities(problem, written):
+    """customer-job activities of the written solution with what activity_matcher.rs derives for each of them"""
+    jobs = {j['id']: j for j in problem['plan']['jobs']}
+    out = []
+    for tour in written.get('tours', []):
+        start = unrfc(tour['stops'][0]['time']['departure'])
+        for stop in tour['stops']:
+            for a in stop['activities']:
+                if a['type'] not in CUSTOMER:
+                    continue
+                loc = (a.get('location') or stop['location'])['index']
+                t = a.get('time')
+                tm = (unrfc(t['start']), unrfc(t['end'])) if t else (unrfc(stop['time']['arrival']), unrfc(stop['time']['departure']))
+                out.append({'tour': (tour['vehicleId'], tour.get('shiftIndex', 0)), 'job': jobs.get(a['jobId']), 'job_id': a['jobId'],
+                            'start': start, 'loc': loc, 'time': tm, 'tag': a.get('jobTag')})
+    return out
+
+
+def init_term(c, impl):
+    if not impl or 'panic' in impl or impl.get('status') not in ('ok', 'read-err'):
+        return None
+    problem = json.loads(c['problem'])
+    terms = []
+    for a in written_activities(problem, impl['written']):
+        if a['job'] is None:
+            return None
+        sgs = init_singles(a['job'])
+        ctx = 'mk_actx %d %d (%d, %d) %s %s' % (a['start'], a['loc'], a['time'][0], a['time'][1], cstr(a['job_id']),
+                                              'None' if a['tag'] is None else '(Some %s)' % cstr(a['tag']))
+        terms.append('run_match %s [%s] (%s)' % ('true' if len(sgs) > 1 else 'false', '; '.join(single_term(x) for x in sgs), ctx))
+    return '[' + '; '.join(terms) + ']'
+
+
+def init_compare(c, impl, model):
+    if 'panic' in impl:
+        return 'implementation panicked: %s' % impl['panic']
+    problem = json.loads(c['problem'])
+    acts = written_activities(problem, impl['written'])
+    if len(acts) != len(model):
+        return 'model evaluated %d activities, written solution has %d' % (len(model), len(acts))
+    if impl['status'] == 'read-err':
+        # the model must explain the refusal: an unmatched activity or a single job matched twice
+        seen = set()
+        for a, m in zip(acts, model):
+            if m == 'None':
+                return None
+            key = a['job_id']
+            if len(init_singles(a['job'])) == 1:
+                if key in seen:
+                    return None
+                seen.add(key)
+        return 'implementation refuses the solution (%s), the model matches every activity' % impl.get('err')
+    per = {}
+    for a, m in zip(acts, model):
+        per.setdefault(a['tour'], []).append(m)
+    back = {(r['vehicle_id'], r['shift']): r['acts'] for r in impl['back']['routes']}
+    for tour, ms in per.items():
+        got = back.get(tour, [])
+        if len(got) != len(ms):
+            return 'tour %s: %d activities read back, model has %d' % (tour, len(got), len(ms))
+        for g, m in zip(got, ms):
+            if m == 'None':
+                return 'tour %s: model cannot match an activity the implementation read back as %s' % (tour, g['job_id'])
+            sub, (pidx, loc, dur, (ws, we)) = m[1]
+            we = None if we == 'None' else we[1]
+            mine = (sub, pidx, loc, dur, ws, we)
+            theirs = (g['sub'], g['place'], g['loc'], g['dur'], g['tw'][0], g['tw'][1])
+            if g.get('frac'):
+                continue
+            if mine[:2] != theirs[:2] or mine[3:] != theirs[3:]:
+                return 'tour %s job %s: read back (sub, place, dur, window) %s, model %s' % (tour, g['job_id'], theirs, mine)
+    return None
+
+
+def init_cause(problem, o):
+    """structural reason why an activity may be reconstructed differently"""
+    job = next(j for j in problem['plan']['jobs'] if j['id'] == o['job_id'])
+    sgs = init_singles(job)
+    places = sgs[o['sub']][1] if 0 <= o['sub'] < len(sgs) else []
+    locs = [p[0] for p in places]
+    if len(set(locs)) < len(locs):
+        return 'places-of-one-task-share-a-location'
+    if places and o['place'] < len(places) and len(places[o['place']][2]) > 1:
+        return 'service-runs-into-a-later-window-of-the-place'
+    return 'other'
+
+
+def init_oracle(c, impl):
+    if 'panic' in impl:
+        return [{'class': 'panic:init', 'what': 'panicked: ' + impl['panic']}]
+    st = impl.get('status')
+    if st in ('problem-rejected', 'not-solved'):
+        return []
+    problem = json.loads(c['problem'])
+    if st == 'write-err':
+        return [{'class': 'init-solution-not-written', 'what': impl.get('err')}]
+    if st == 'read-err':
+        kind = 'cannot-match' if 'cannot match' in impl['err'] else ('double-assignment' if 'double assignment' in impl['err'] else 'other')
+        return [{'class': 'init-own-solution-refused:' + kind, 'what': 'read_init_solution refuses the solver\'s own solution: %s' % impl['err']}]
+    v = []
+    orig = {(r['vehicle_id'], r['shift']): r['acts'] for r in impl['orig']['routes'] if r['acts']}
+    back = {(r['vehicle_id'], r['shift']): r['acts'] for r in impl['back']['routes'] if r['acts']}
+    if set(orig) != set(back):
+        v.append({'class': 'init-vehicle-shifts-differ', 'what': 'tours on %s read back on %s' % (sorted(orig), sorted(back))})
+        return v
+    for key, oa in orig.items():
+        ba = back[key]
+        if [(x['job_id'], x['sub']) for x in oa] != [(x['job_id'], x['sub']) for x in ba]:
+            v.append({'class': 'init-activity-order-differs', 'what': 'tour %s: %s read back as %s' % (
+                key, [(x['job_id'], x['sub']) for x in oa], [(x['job_id'], x['sub']) for x in ba])})
+            continue
+        for o, b in zip(oa, ba):
+            if o.get('frac'):
+                continue
+            if (o['place'], o['loc'], o['dur']) != (b['place'], b['loc'], b['dur']):
+                v.append({'class': 'init-place-differs:' + init_cause(problem, o),
+                          'what': 'tour %s job %s: solver used place %d (duration %d), read back place %d (duration %d)' % (
+                              key, o['job_id'], o['place'], o['dur'], b['place'], b['dur'])})
+            elif o['tw'] != b['tw']:
+                v.append({'class': 'init-time-window-differs:' + init_cause(problem, o),
+                          'what': 'tour %s job %s place %d: solver used window %s, read back window %s' % (key, o['job_id'], o['place'], o['tw'], b['tw'])})
+    ids = {j['id'] for j in problem['plan']['jobs']}
+    uo = sorted(x for x in impl['orig']['unassigned'] if x in ids)
+    ub = sorted(x for x in impl['back']['unassigned'] if x in ids)
+    if uo != ub:
+        v.append({'class': 'init-unassigned-differs', 'what': 'unassigned %s read back as %s' % (uo, ub)})
+    return v
+
 # ------------------------------------------------------------------ float text stream
 def f64_bits(x):
     return struct.unpack('<Q', struct.pack('<d', x))[0]
@@ -517,8 +987,14 @@ def generate(rng, tier, n):
         if r < 4:
             cases.append(gen_flt(rng))
             continue
+        if r < 22:
+            cases.append(gen_csv(rng))
+            continue
+        if r < 34:
+            cases.append(gen_init(rng))
+            continue
         kind = rng.choice(kinds)
-        mode = 'canon' if r < 45 else ('loose' if r < 80 else 'bad')
+        mode = 'canon' if r < 55 else ('loose' if r < 83 else 'bad')
         c = gen_doc(rng, kind, mode, rr)
         if c:
             cases.append(c)
@@ -539,13 +1015,24 @@ def corpus():
 
 
 # ------------------------------------------------------------------ model / compare / oracle
-def model_term(c):
+MODEL_NEEDS_IMPL = True
+
+
+def model_term(c, impl=None):
+    if c['op'] == 'init':
+        return init_term(c, impl)
     if c['op'] == 'rt':
         return 'run_%s (%s)' % (c['kind'], coq_of(tree_of_text(c['doc'])))
+    if c['op'] == 'csv':
+        return csv_term(c)
     return None
 
 
 def compare(c, impl, model):
+    if c['op'] == 'init':
+        return init_compare(c, impl, model)
+    if c['op'] == 'csv':
+        return csv_compare(c, impl, model)
     if 'panic' in impl:
         return 'implementation panicked: %s' % impl['panic']
     if c['op'] == 'rt':
@@ -567,6 +1054,10 @@ def ulp_dist(a, b):
 
 
 def oracle(c, impl):
+    if c['op'] == 'init':
+        return init_oracle(c, impl)
+    if c['op'] == 'csv':
+        return csv_oracle(c, impl)
     if 'panic' in impl:
         return [{'class': 'panic:' + c['op'], 'what': 'panicked: ' + impl['panic']}]
     v = []
@@ -592,12 +1083,17 @@ def oracle(c, impl):
             v.append({'class': 'float-text-rejected', 'what': 'serialised finite floats do not parse: %s' % impl.get('err')})
             return v
         for b, y, z in zip(c['bits'], impl['back'], impl['back2']):
-            if ulp_dist(int(b), int(y)) > 1:
-                v.append({'class': 'float-text-roundtrip', 'what': 'f64 %s comes back as %s (more than the last bit)' % (b, y)})
-                break
-            if ulp_dist(int(y), int(z)) > 1:
-                v.append({'class': 'float-text-roundtrip', 'what': 'f64 %s comes back as %s after another round trip' % (y, z)})
-                break
+            for src, dst in ((int(b), int(y)), (int(y), int(z))):
+                if ulp_dist(src, dst) > 1:
+                    x = struct.unpack('<d', struct.pack('<Q', src))[0]
+                    r = repr(x)
+                    e10 = int(r.split('e')[1]) if 'e' in r else 0
+                    digits = len(r.split('e')[0].replace('-', '').replace('.', '').lstrip('0'))
+                    # serde_json parses exactly on its fast path (at most 15 significant digits, |decimal exponent| <= 22)
+                    shape = 'outside-the-exact-fast-path' if (abs(e10) > 22 or digits > 15) else 'short-decimal'
+                    v.append({'class': 'float-text-beyond-last-bit:' + shape,
+                              'what': 'f64 %s (bits %d) is written as %s and read back %d ulps away (bits %d)' % (r, src, r, ulp_dist(src, dst), dst)})
+                    return v
     return v
 
 
@@ -608,6 +1104,11 @@ def nontrivial_key(c, impl):
         return ('rt', c['kind'], c['doc']) if impl['ok'] and len(c['doc']) > 150 else None
     if c['op'] == 'flt':
         return ('flt', tuple(c['bits']))
+    if c['op'] == 'csv':
+        return ('csv', c['jobs'], c['vehicles']) if len(c['jrows']) >= 2 else None
+    if c['op'] == 'init':
+        n = sum(len(r['acts']) for r in impl.get('orig', {}).get('routes', []))
+        return ('init', c['problem']) if impl.get('status') in ('ok', 'read-err') and n >= 2 else None
     return None
 
 
@@ -619,6 +1120,16 @@ def classify(c, impl):
             labs.append('rt:%s:%s' % (c['mode'], 'accepted' if impl['ok'] else 'rejected'))
         if c.get('mutation'):
             labs.append('malformed:' + c['mutation'])
+    if c['op'] == 'init' and 'panic' not in impl:
+        labs.append('init:' + str(impl.get('status')))
+        if impl.get('status') == 'ok':
+            labs.append('init:unassigned=%s' % ('some' if impl['orig']['unassigned'] else 'none'))
+            labs.append('init:activities=%d' % min(6, sum(len(r['acts']) for r in impl['orig']['routes'])))
+    if c['op'] == 'csv':
+        bad = [k for k, v in c['wf'].items() if not v]
+        labs.append('csv:' + ('well-formed' if not bad else '+'.join('not-' + b for b in bad)))
+        if 'panic' not in impl and impl.get('ok'):
+            labs.append('csv:validation=' + ('ok' if not impl['validation'] else '+'.join(impl['validation'])))
     return labs
 
 
@@ -626,6 +1137,22 @@ def extra_coverage():
     return {'translator_error': _GEN_ERROR} if _GEN_ERROR else {}
 
 
-MANIFEST_TEXT = 'TODO'
-MANIFEST_NOTE = 'TODO'
+MANIFEST_TEXT = ('Machine-checked proof (Coq, 28 theorems, no axioms). (a) tools/serde2coq.py translates the serde-derive items of the '
+                 'pragmatic problem / matrix / solution model files (59 types; field order, Option, Vec, rename, rename_all, alias, tag, '
+                 'untagged, skip_serializing_if, default) into Coq types, encoders to a JSON tree and decoders following serde semantics, '
+                 'and proves for every type with one generic tactic that decode(encode x) = x (6 types up to the normalisation of the one '
+                 'ambiguous untagged enum, which leaves the serialised form unchanged); hence serialise->parse->serialise is the identity '
+                 'for all problem, matrix and solution values. (c) model of read_csv_problem on tokenised rows: every row reappears exactly '
+                 '(ids, coordinates, |demand|, sign -> task kind, duration, window, capacity, amount, profile) for every hash order; the '
+                 '"valid problem" clause is refuted (vehicle ids built from the profile collide; abs overflow). (b) model of the activity '
+                 'matcher (get_job_tag, match_place, multi-job dispatch): a written activity matches back to its own sub-job / place / window '
+                 'under explicit distinguishability conditions, both of which are shown necessary by witnesses. The models are tied to /repo '
+                 'on every run: schema-driven generated documents (canonical, loose, malformed) through the real deserialize/serialize vs '
+                 'enc(dec doc) evaluated in Coq; generated CSV tables through read_csv_problem + validation; small generated problems solved by '
+                 'the real solver, written, read back with read_init_solution and compared per vehicle shift, in order, with place and window.')
+MANIFEST_NOTE = ('Trusted: Coq kernel + vm_compute; tools/serde2coq.py (validated each run); harness and generators. Validated only: the '
+                 'serde_json text layer (float printing/parsing: differential stream with one-ulp oracle), BTreeMap ordering, csv tokenizer, '
+                 'read_init_solution bookkeeping and the writer (end-to-end campaign, no end-to-end theorem: the init theorems are about the '
+                 'matching rule). Known findings C11-F1..F5 (CSV vehicle ids, CSV abs overflow, later window taken, same-location place taken, '
+                 'float text 2 ulps) are reported as KNOWN-FINDING and do not fail the check.')
 MANIFEST_TECHNIQUE = 'Coq proof over executable model + vm_compute differential correspondence with the Rust implementation'
